@@ -38,6 +38,8 @@ type impTarget struct {
 	elem               string   // name of a type treated as an ABSTRACT element type F with operations mul / one / inv (field level)
 	abstract           []string // package-local functions called as ABSTRACT parameters (hash arguments dropped); their source text is
 	// emitted as `abstractSrc` so that an edit of them breaks the proofs that pin it
+	grp string // name of a point type treated as an ABSTRACT group element type G with operations add / dbl / neg / zero (imp_grp.go)
+	inf string // name of the package-level variable holding the point at infinity (read as `zero`)
 }
 
 var impTargets = []impTarget{
@@ -74,7 +76,7 @@ func (t *ity) eq(u *ity) bool {
 	if t == nil || u == nil {
 		return t == u
 	}
-	if t.k != u.k || t.name != u.name {
+	if t.k != u.k || t.name != u.name || t.n != u.n {
 		return false
 	}
 	if t.elem != nil || u.elem != nil {
@@ -103,16 +105,25 @@ type impField struct {
 }
 
 type impPkg struct {
-	tg         impTarget
-	fset       *token.FileSet
-	structs    map[string][]impField
-	order      []string          // struct names in source order
-	errVars    map[string]string // sentinel name -> message
-	errOrd     []string
-	funcs      map[string]*ast.FuncDecl
-	absDecl    map[string]*ast.FuncDecl
-	absCalled  []string
-	translated map[string]*impSig // pure package-local functions translated so far (callable from later ones)
+	tg            impTarget
+	fset          *token.FileSet
+	structs       map[string][]impField
+	order         []string          // struct names in source order
+	errVars       map[string]string // sentinel name -> message
+	errOrd        []string
+	funcs         map[string]*ast.FuncDecl
+	methods       map[string]*ast.FuncDecl // "RecvType.Name" -> declaration (functions of the target file)
+	absDecl       map[string]*ast.FuncDecl
+	absCalled     []string
+	loopInfos     []impLoopInfo
+	grpTranslated map[string]*impSig // methods of the point type translated so far (receiver by value, result = new receiver)
+	translated    map[string]*impSig // pure package-local functions translated so far (callable from later ones)
+}
+
+// helper defs of loops in generation order (inner loops first): what the all-packages-equal proofs need
+type impLoopInfo struct {
+	name, kind string // kind: "range" (structural recursion on the list) / "for" (fuel recursion)
+	ro, S      []string
 }
 
 type impSig struct {
@@ -166,6 +177,9 @@ func (p *impPkg) goType(e ast.Expr) *ity {
 		if p.tg.elem != "" && v.Name == p.tg.elem {
 			return &ity{k: "elem"}
 		}
+		if p.tg.grp != "" && v.Name == p.tg.grp {
+			return &ity{k: "grp"}
+		}
 	case *ast.SelectorExpr:
 		if id, ok := v.X.(*ast.Ident); ok && id.Name == "hash" && v.Sel.Name == "Hash" {
 			return tyHash
@@ -199,12 +213,18 @@ func (p *impPkg) goType(e ast.Expr) *ity {
 		if v.Len == nil {
 			return &ity{k: "slice", elem: p.goType(v.Elt)}
 		}
+		if n := litInt(v.Len); n != nil && p.tg.grp != "" && n.IsInt64() && n.Int64() > 0 && n.Int64() < 1024 {
+			// fixed-size array of group elements: a list of that length (a value; element writes are value updates)
+			if t := p.goType(v.Elt); t.k == "grp" {
+				return &ity{k: "array", n: int(n.Int64()), elem: t}
+			}
+		}
 	case *ast.MapType:
 		if k := p.goType(v.Key); k.k == "string" {
 			return &ity{k: "map", elem: p.goType(v.Value)}
 		}
 	case *ast.StarExpr:
-		if t := p.goType(v.X); t.k == "struct" || t.k == "elem" {
+		if t := p.goType(v.X); t.k == "struct" || t.k == "elem" || t.k == "grp" {
 			return &ity{k: "ptr", elem: t}
 		} else if t.k == "bigint" { // *big.Int is read as an exact integer VALUE (mutating methods only on fresh objects)
 			return t
@@ -229,6 +249,10 @@ func (p *impPkg) lty(t *ity, qual bool) string {
 		return t.name
 	case "elem":
 		return "F"
+	case "grp":
+		return "G"
+	case "array":
+		return "List " + p.ltyA(t.elem, qual)
 	case "bigint":
 		return "Int"
 	case "bool":
@@ -292,6 +316,12 @@ func (p *impPkg) zero(t *ity) string {
 		return "none"
 	case "struct":
 		return "{}"
+	case "grp":
+		return "uninit"
+	case "array":
+		return fmt.Sprintf("List.replicate %d %s", t.n, p.zero(t.elem))
+	case "bigint":
+		return "0"
 	}
 	return "default"
 }
@@ -299,7 +329,7 @@ func (p *impPkg) zero(t *ity) string {
 // ---------------------------------------------------------------------------------------------- loading
 
 func loadImp(tg impTarget) *impPkg {
-	p := &impPkg{tg: tg, fset: token.NewFileSet(), structs: map[string][]impField{}, errVars: map[string]string{}, funcs: map[string]*ast.FuncDecl{}, absDecl: map[string]*ast.FuncDecl{}, translated: map[string]*impSig{}}
+	p := &impPkg{tg: tg, fset: token.NewFileSet(), structs: map[string][]impField{}, errVars: map[string]string{}, funcs: map[string]*ast.FuncDecl{}, methods: map[string]*ast.FuncDecl{}, absDecl: map[string]*ast.FuncDecl{}, translated: map[string]*impSig{}, grpTranslated: map[string]*impSig{}}
 	f, err := parser.ParseFile(p.fset, filepath.Join(repo, tg.dir, tg.file), nil, parser.ParseComments)
 	if err != nil {
 		die("imp: parse: %v", err)
@@ -310,7 +340,7 @@ func loadImp(tg impTarget) *impPkg {
 		if gd, ok := d.(*ast.GenDecl); ok && gd.Tok == token.TYPE {
 			for _, s := range gd.Specs {
 				ts := s.(*ast.TypeSpec)
-				if _, ok := ts.Type.(*ast.StructType); ok {
+				if _, ok := ts.Type.(*ast.StructType); ok && tg.grp == "" {
 					p.structs[ts.Name.Name] = nil
 					p.order = append(p.order, ts.Name.Name)
 					specs = append(specs, ts)
@@ -350,6 +380,12 @@ func loadImp(tg impTarget) *impPkg {
 				}
 			}
 		case *ast.FuncDecl:
+			if v.Recv != nil && len(v.Recv.List) == 1 {
+				p.methods[strings.TrimPrefix(exprText(v.Recv.List[0].Type), "*")+"."+v.Name.Name] = v
+			}
+			if tg.grp != "" && (v.Recv == nil || len(v.Recv.List) != 1 || exprText(v.Recv.List[0].Type) != "*"+tg.grp) {
+				continue // a point-type target: only the methods of that type are targets
+			}
 			p.funcs[v.Name.Name] = v
 		}
 	}
@@ -502,7 +538,7 @@ func (p *impPkg) translateFunc(name string) string {
 		params = append(params, "("+lname(f.recv)+" : "+p.lty(t, false)+")")
 	}
 	for _, fl := range fd.Type.Params.List {
-		if _, ok := fl.Type.(*ast.StarExpr); ok && p.goType(fl.Type).k != "bigint" {
+		if _, ok := fl.Type.(*ast.StarExpr); ok && p.goType(fl.Type).k != "bigint" && !(p.goType(fl.Type).k == "ptr" && p.goType(fl.Type).elem.k == "grp") {
 			p.die(fl, "pointer parameter (outside the subset: only the receiver is passed by reference)")
 		}
 		t0 := p.paramType(fl.Type)
@@ -537,7 +573,7 @@ func (p *impPkg) translateFunc(name string) string {
 			f.results = append(f.results, p.paramType(fl.Type))
 		}
 	}
-	if f.recv != "" && f.recvTy.k == "elem" && len(f.results) == 1 && f.results[0].k == "elem" {
+	if f.recv != "" && (f.recvTy.k == "elem" || f.recvTy.k == "grp") && len(f.results) == 1 && f.results[0].k == f.recvTy.k {
 		// `func (z *Element) M(…) *Element`: the methods of the element type return their receiver; the def returns the new value of z
 		f.retSelf = true
 		f.results = nil
@@ -560,6 +596,9 @@ func (p *impPkg) translateFunc(name string) string {
 		return c.ret("()")
 	}
 	f.push()
+	if p.tg.grp != "" {
+		f.checkRecvAlias()
+	}
 	body := f.seq(fd.Body.List, nil, c, "  ", nil, true)
 	if f.evRecv {
 		body = "  let " + lname(f.recv) + " : " + p.lty(f.recvTy, false) + " := []  -- calls of the callback, in order\n" + body
@@ -579,6 +618,15 @@ func (p *impPkg) translateFunc(name string) string {
 		}
 		p.translated[name] = sig
 	}
+	if f.retSelf && f.recvTy.k == "grp" && len(f.fuels) == 0 && !u.W && !u.H && !u.S && !u.B && !f.usesNumCPU {
+		sig := &impSig{result: f.recvTy}
+		for _, fl := range fd.Type.Params.List {
+			for range fl.Names {
+				sig.params = append(sig.params, p.paramType(fl.Type))
+			}
+		}
+		p.grpTranslated[name] = sig
+	}
 	var b strings.Builder
 	for _, h := range f.helpers {
 		b.WriteString(h + "\n")
@@ -596,6 +644,11 @@ func impPassOf(out string) string {
 	if strings.HasPrefix(b, "Exp_") || b == "ExpAll" {
 		return "Exp"
 	}
+	for _, fam := range grpFamilies {
+		if strings.HasPrefix(b, fam.name+"_") || b == fam.name+"All" {
+			return fam.name
+		}
+	}
 	return b
 }
 
@@ -608,6 +661,9 @@ func impPasses() []string {
 			seen[p] = true
 			res = append(res, p)
 		}
+	}
+	for _, fam := range grpFamilies {
+		res = append(res, fam.name)
 	}
 	return res
 }
@@ -653,11 +709,27 @@ func runImp() {
 		b.WriteString("]\n\ntheorem allExp_same : ∀ e ∈ allExp, @e.2 = @Exp_bn254_fr.Exp := by\n  intro e he\n  simp only [allExp, List.mem_cons, List.not_mem_nil, or_false] at he\n  rcases he with " + strings.TrimSuffix(strings.Repeat("rfl | ", len(expNames)), " | ") + " <;> first | rfl | (simp only []; first | " + strings.Join(sameNames(expNames), " | ") + ")\n\nend GV.Gen.Imp.ExpAll\n")
 		writeFile("Imp/ExpAll.lean", b.String())
 	}()
+	famInfos := map[string][]impLoopInfo{} // target ns -> loops
+	for _, fam := range grpFamilies {
+		fam := fam
+		targets = append(targets, fam.targets()...)
+		defer func() {
+			if impOnly != "" && impOnly != fam.name {
+				return
+			}
+			writeFile("Imp/"+fam.name+"All.lean", fam.allFile(famInfos))
+		}()
+	}
 	for _, tg := range targets {
 		if impOnly != "" && impPassOf(tg.out) != impOnly {
 			continue
 		}
 		impAbsParams, impAbsArgs = "", ""
+		impExtraReserved = nil
+		if tg.grp != "" {
+			impAbsParams, impAbsArgs = grpAbsParams, grpAbsArgs
+			impExtraReserved = grpReserved
+		}
 		if tg.elem != "" {
 			impAbsParams, impAbsArgs = " {F : Type} (mul : F → F → F) (one : F) (inv : F → F)", " mul one inv"
 		}
@@ -667,9 +739,13 @@ func runImp() {
 		var b strings.Builder
 		fmt.Fprintf(&b, "/- GENERATED by tools/goslp (imp.go) from /repo/%s/%s on every run. DO NOT EDIT.\n", tg.dir, tg.file)
 		b.WriteString("   Statement-by-statement translation of imperative Go; the value vocabulary and its semantics: Model/GoImp.lean. -/\n")
-		b.WriteString("import GnarkVerif.Model.GoImp\n\nset_option linter.unusedVariables false\n\n")
+		if tg.grp != "" {
+			b.WriteString("import GnarkVerif.Model.GoImpGrp\n\nset_option linter.unusedVariables false\n\n")
+		} else {
+			b.WriteString("import GnarkVerif.Model.GoImp\n\nset_option linter.unusedVariables false\n\n")
+		}
 		fmt.Fprintf(&b, "namespace GV.Gen.Imp.%s\nopen GV.GoImp\n\n", tg.ns)
-		if tg.elem != "" { // a field package: only the targeted functions matter
+		if tg.elem != "" || tg.grp != "" { // a field / curve package: only the targeted functions matter
 			p.errOrd, p.order = nil, nil
 		}
 		for _, e := range p.errOrd {
@@ -720,6 +796,7 @@ func runImp() {
 			b.WriteString(p.translateFunc(fn))
 		}
 		fmt.Fprintf(&b, "end GV.Gen.Imp.%s\n", tg.ns)
+		famInfos[tg.ns] = p.loopInfos
 		writeFile(tg.out, b.String())
 		dieHook = nil
 	}
